@@ -3,9 +3,16 @@ package main
 import (
 	"encoding/json"
 	"fmt"
+	"go/types"
+	"math/big"
 	"os"
+	"os/exec"
 	"path/filepath"
+	"regexp"
+	"sort"
 	"strings"
+
+	"golang.org/x/tools/go/ssa"
 )
 
 type ReplayResult struct {
@@ -37,13 +44,13 @@ func replayObligation(vd, prop string, s *OblSummary, secs int) ReplayResult {
 			qf := filepath.Join(dir, fmt.Sprintf("query_%d.smt2", i))
 			os.WriteFile(qf, []byte(s.ctx.queryText(o, false)), 0o644)
 			q["query_file"] = qf
-			if s.ctx.Fn != nil {
+			if s.ctx.Fn != nil && !res.Reproduced {
 				r := tryReplay(s.ctx, o, dir, i, secs)
 				q["replay"] = r
 				if rep, _ := r["reproduced"].(bool); rep {
 					res.Reproduced = true
 					res.Verdict = fmt.Sprint(r["verdict"])
-				} else if res.Verdict == "no model" && r["verdict"] != nil {
+				} else if r["verdict"] != nil && (res.Verdict == "no model" || i == 0) {
 					res.Verdict = fmt.Sprint(r["verdict"])
 				}
 			}
@@ -58,6 +65,1550 @@ func replayObligation(vd, prop string, s *OblSummary, secs int) ReplayResult {
 	return res
 }
 
-func tryReplay(c *Ctx, o *Obligation, dir string, i int, secs int) map[string]interface{} {
-	return map[string]interface{}{"verdict": "replay not attempted", "reproduced": false}
+// ---------------------------------------------------------------------------
+// Shapes: how a Go value is described by SMT terms (inputs) / by dumped JSON (outputs)
+// ---------------------------------------------------------------------------
+
+type Shape struct {
+	Kind    string // int bool float string slice ptr struct time unsupported
+	Ty      types.Type
+	Term    string // scalar term (int/bool/float), or the value term for composites
+	LenTerm string
+	NilTerm string
+	Fields  []*Shape
+	Names   []string
+	Elems   []*Shape
+	Pointee *Shape
+	Chars   []string
+	// filled from the model
+	Val   string
+	Len   int
+	IsNil bool
+	Note  string
+}
+
+const replayMaxElems = 8
+
+type shapeBuilder struct {
+	c     *Ctx
+	heap  func(name, sort string) string // heap component term in the state the shape describes
+	terms []string
+}
+
+func (b *shapeBuilder) ask(t string) string {
+	b.terms = append(b.terms, t)
+	return t
+}
+
+func (b *shapeBuilder) build(term string, t types.Type, depth int) *Shape {
+	c := b.c
+	sh := &Shape{Ty: t, Term: term}
+	if depth > 4 {
+		sh.Kind = "unsupported"
+		sh.Note = "too deep"
+		return sh
+	}
+	if n, ok := types.Unalias(t).(*types.Named); ok && n.Obj().Pkg() != nil && n.Obj().Pkg().Path() == "time" && n.Obj().Name() == "Time" {
+		sh.Kind = "time"
+		if _, ok := c.structNames["time.Time"]; ok {
+			sh.Term = b.ask(fmt.Sprintf("(time.ns %s)", term))
+		} else {
+			sh.Kind = "unsupported"
+		}
+		return sh
+	}
+	switch u := c.under(t).(type) {
+	case *types.Basic:
+		switch {
+		case u.Info()&types.IsBoolean != 0:
+			sh.Kind = "bool"
+			b.ask(term)
+		case u.Info()&types.IsInteger != 0:
+			sh.Kind = "int"
+			b.ask(term)
+		case u.Info()&types.IsFloat != 0:
+			sh.Kind = "float"
+			b.ask(term)
+		case u.Info()&types.IsString != 0:
+			sh.Kind = "string"
+			sh.LenTerm = b.ask(fmt.Sprintf("(gs.len %s)", term))
+			for k := 0; k < 2*replayMaxElems; k++ {
+				sh.Chars = append(sh.Chars, b.ask(fmt.Sprintf("(gs.at %s %d)", term, k)))
+			}
+		default:
+			sh.Kind = "unsupported"
+		}
+	case *types.Slice:
+		sh.Kind = "slice"
+		sh.LenTerm = b.ask(fmt.Sprintf("(s.len %s)", term))
+		sh.NilTerm = b.ask(fmt.Sprintf("(= (s.base %s) 0)", term))
+		cn, cs := c.elemComp(u.Elem())
+		for k := 0; k < replayMaxElems; k++ {
+			et := fmt.Sprintf("(select (select %s (s.base %s)) (idx (s.off %s) %d))", b.heap(cn, cs), term, term, k)
+			sh.Elems = append(sh.Elems, b.build(et, u.Elem(), depth+1))
+		}
+	case *types.Pointer:
+		sh.Kind = "ptr"
+		sh.NilTerm = b.ask(fmt.Sprintf("(= %s 0)", term))
+		if st := c.structOf(u.Elem()); st != nil {
+			p := &Shape{Kind: "struct", Ty: u.Elem()}
+			for i := 0; i < st.NumFields(); i++ {
+				cn, cs, ft := c.fieldComp(u.Elem(), i)
+				p.Names = append(p.Names, st.Field(i).Name())
+				p.Fields = append(p.Fields, b.build(fmt.Sprintf("(select %s %s)", b.heap(cn, cs), term), ft, depth+1))
+			}
+			sh.Pointee = p
+		} else if _, isArr := c.under(u.Elem()).(*types.Array); isArr {
+			sh.Kind = "unsupported"
+		} else {
+			cn, cs := c.boxComp(u.Elem())
+			sh.Pointee = b.build(fmt.Sprintf("(select %s %s)", b.heap(cn, cs), term), u.Elem(), depth+1)
+		}
+	case *types.Struct:
+		sh.Kind = "struct"
+		name := c.structSort(t, u)
+		for i := 0; i < u.NumFields(); i++ {
+			sh.Names = append(sh.Names, u.Field(i).Name())
+			sh.Fields = append(sh.Fields, b.build(fmt.Sprintf("(%s %s)", c.fieldSel(name, u.Field(i).Name(), i), term), u.Field(i).Type(), depth+1))
+		}
+	default:
+		sh.Kind = "unsupported"
+		sh.Note = fmt.Sprintf("%T", u)
+	}
+	return sh
+}
+
+// fill reads the model values into the shape.
+func (sh *Shape) fill(vals map[string]string) {
+	get := func(t string) string { return vals[normTerm(t)] }
+	switch sh.Kind {
+	case "int", "bool", "float", "time":
+		sh.Val = get(sh.Term)
+	case "string":
+		sh.Len = atoiSafe(get(sh.LenTerm))
+		var bs []byte
+		for k := 0; k < sh.Len && k < len(sh.Chars); k++ {
+			bs = append(bs, byte(atoiSafe(get(sh.Chars[k]))&255))
+		}
+		sh.Val = string(bs)
+	case "slice":
+		sh.Len = atoiSafe(get(sh.LenTerm))
+		sh.IsNil = get(sh.NilTerm) == "true"
+		for _, e := range sh.Elems {
+			e.fill(vals)
+		}
+	case "ptr":
+		sh.IsNil = get(sh.NilTerm) == "true"
+		if sh.Pointee != nil {
+			sh.Pointee.fill(vals)
+		}
+	case "struct":
+		for _, f := range sh.Fields {
+			f.fill(vals)
+		}
+	}
+}
+
+func atoiSafe(s string) int {
+	b := smtIntValue(s)
+	if b == nil || !b.IsInt64() {
+		return 0
+	}
+	return int(b.Int64())
+}
+
+func smtIntValue(s string) *big.Int {
+	s = strings.TrimSpace(s)
+	neg := false
+	if strings.HasPrefix(s, "(-") {
+		neg = true
+		s = strings.TrimSpace(strings.TrimSuffix(strings.TrimPrefix(s, "(-"), ")"))
+	}
+	s = strings.TrimSuffix(s, ".0")
+	b, ok := new(big.Int).SetString(s, 10)
+	if !ok {
+		return nil
+	}
+	if neg {
+		b.Neg(b)
+	}
+	return b
+}
+
+var wsRe = regexp.MustCompile(`\s+`)
+
+func normTerm(t string) string { return wsRe.ReplaceAllString(strings.TrimSpace(t), " ") }
+
+// goLit renders the shape as a Go expression. qual qualifies type names for the test's package.
+func (sh *Shape) goLit(qual types.Qualifier, notes *[]string) string {
+	ts := types.TypeString(sh.Ty, qual)
+	switch sh.Kind {
+	case "int":
+		b := smtIntValue(sh.Val)
+		if b == nil {
+			b = big.NewInt(0)
+		}
+		return fmt.Sprintf("%s(%s)", ts, b.String())
+	case "bool":
+		if sh.Val == "true" {
+			return ts + "(true)"
+		}
+		return ts + "(false)"
+	case "float":
+		return fmt.Sprintf("%s(%s)", ts, smtRealToGo(sh.Val))
+	case "time":
+		b := smtIntValue(sh.Val)
+		if b == nil {
+			b = big.NewInt(0)
+		}
+		sec := new(big.Int)
+		ns := new(big.Int)
+		sec.DivMod(b, big.NewInt(1000000000), ns)
+		return fmt.Sprintf("time.Unix(%s, %s).UTC()", sec.String(), ns.String())
+	case "string":
+		return fmt.Sprintf("%s(%q)", ts, sh.Val)
+	case "slice":
+		if sh.IsNil {
+			return ts + "(nil)"
+		}
+		n := sh.Len
+		if n > len(sh.Elems) {
+			*notes = append(*notes, fmt.Sprintf("slice of length %d truncated to %d elements", n, len(sh.Elems)))
+			n = len(sh.Elems)
+		}
+		var es []string
+		for k := 0; k < n; k++ {
+			es = append(es, sh.Elems[k].goLit(qual, notes))
+		}
+		return ts + "{" + strings.Join(es, ", ") + "}"
+	case "ptr":
+		if sh.IsNil || sh.Pointee == nil {
+			return "(" + ts + ")(nil)"
+		}
+		if sh.Pointee.Kind == "struct" {
+			return "&" + sh.Pointee.goLit(qual, notes)
+		}
+		return fmt.Sprintf("func() %s { v := %s; return &v }()", ts, sh.Pointee.goLit(qual, notes))
+	case "struct":
+		var fs []string
+		for i, f := range sh.Fields {
+			if sh.Names[i] == "_" {
+				continue
+			}
+			if f.Kind == "unsupported" {
+				*notes = append(*notes, "field "+sh.Names[i]+" left at its zero value ("+f.Note+")")
+				continue
+			}
+			if n, ok := types.Unalias(sh.Ty).(*types.Named); ok && n.Obj().Pkg() != nil && !st_exported(sh.Names[i]) && qual(n.Obj().Pkg()) != "" {
+				*notes = append(*notes, "unexported field "+sh.Names[i]+" of foreign type left at zero")
+				continue
+			}
+			fs = append(fs, sh.Names[i]+": "+f.goLit(qual, notes))
+		}
+		return types.TypeString(sh.Ty, qual) + "{" + strings.Join(fs, ", ") + "}"
+	}
+	*notes = append(*notes, "unsupported input of type "+ts+" replaced by its zero value")
+	return fmt.Sprintf("*new(%s)", ts)
+}
+
+// toJSON describes the value for the reflective builder in the replay test.
+func (sh *Shape) toJSON(notes *[]string) interface{} {
+	switch sh.Kind {
+	case "int":
+		b := smtIntValue(sh.Val)
+		if b == nil {
+			b = big.NewInt(0)
+		}
+		return map[string]interface{}{"int": b.String()}
+	case "bool":
+		return map[string]interface{}{"bool": sh.Val == "true"}
+	case "float":
+		return map[string]interface{}{"float": smtRealToFloat(sh.Val)}
+	case "time":
+		b := smtIntValue(sh.Val)
+		if b == nil {
+			b = big.NewInt(0)
+		}
+		return map[string]interface{}{"time_ns": b.String()}
+	case "string":
+		return map[string]interface{}{"str": []byte(sh.Val)}
+	case "slice":
+		if sh.IsNil {
+			return map[string]interface{}{"nil": true}
+		}
+		n := sh.Len
+		if n > len(sh.Elems) {
+			*notes = append(*notes, fmt.Sprintf("slice of length %d truncated to %d elements", n, len(sh.Elems)))
+			n = len(sh.Elems)
+		}
+		es := []interface{}{}
+		for k := 0; k < n; k++ {
+			es = append(es, sh.Elems[k].toJSON(notes))
+		}
+		return map[string]interface{}{"slice": es}
+	case "ptr":
+		if sh.IsNil || sh.Pointee == nil {
+			return map[string]interface{}{"nil": true}
+		}
+		return map[string]interface{}{"ptr": sh.Pointee.toJSON(notes)}
+	case "struct":
+		m := map[string]interface{}{}
+		for i, f := range sh.Fields {
+			if sh.Names[i] == "_" {
+				continue
+			}
+			if f.Kind == "unsupported" {
+				*notes = append(*notes, "field "+sh.Names[i]+" left at its zero value ("+f.Note+")")
+				continue
+			}
+			m[sh.Names[i]] = f.toJSON(notes)
+		}
+		return map[string]interface{}{"struct": m}
+	}
+	*notes = append(*notes, "unsupported input of type "+sh.Ty.String()+" replaced by its zero value")
+	return nil
+}
+
+func smtRealToFloat(v string) float64 {
+	v = strings.TrimSpace(v)
+	neg := false
+	if strings.HasPrefix(v, "(-") {
+		neg = true
+		v = strings.TrimSpace(strings.TrimSuffix(strings.TrimPrefix(v, "(-"), ")"))
+	}
+	var f float64
+	if strings.HasPrefix(v, "(/") {
+		fs := strings.Fields(strings.TrimSuffix(strings.TrimPrefix(v, "(/"), ")"))
+		if len(fs) == 2 {
+			var a, b float64
+			fmt.Sscanf(fs[0], "%g", &a)
+			fmt.Sscanf(fs[1], "%g", &b)
+			if b != 0 {
+				f = a / b
+			}
+		}
+	} else {
+		fmt.Sscanf(v, "%g", &f)
+	}
+	if neg {
+		f = -f
+	}
+	return f
+}
+
+func st_exported(n string) bool { return n != "" && n[0] >= 'A' && n[0] <= 'Z' }
+
+func smtRealToGo(v string) string {
+	v = strings.TrimSpace(v)
+	if v == "" {
+		return "0"
+	}
+	neg := ""
+	if strings.HasPrefix(v, "(-") {
+		neg = "-"
+		v = strings.TrimSpace(strings.TrimSuffix(strings.TrimPrefix(v, "(-"), ")"))
+	}
+	if strings.HasPrefix(v, "(/") {
+		f := strings.Fields(strings.TrimSuffix(strings.TrimPrefix(v, "(/"), ")"))
+		if len(f) == 2 {
+			return fmt.Sprintf("%s(%s / %s)", neg, f[0], f[1])
+		}
+	}
+	return neg + v
+}
+
+// ---------------------------------------------------------------------------
+// Model query
+// ---------------------------------------------------------------------------
+
+// modelPrelude gives the helper functions their exact meaning (no quantified axioms) for model finding.
+func modelPrelude() string { return modelPreludeNL(true) }
+
+func modelPreludeNL(exactNL bool) string {
+	s := modelPreludeExact()
+	if !exactNL {
+		s = strings.Replace(s, "(define-fun nl.div ((a Int) (b Int)) Int (go.div a b))", "(declare-fun nl.div (Int Int) Int)", 1)
+		s = strings.Replace(s, "(define-fun nl.mod ((a Int) (b Int)) Int (go.mod a b))", "(declare-fun nl.mod (Int Int) Int)", 1)
+		s = strings.Replace(s, "(define-fun nl.mul ((a Int) (b Int)) Int (* a b))", "(declare-fun nl.mul (Int Int) Int)", 1)
+	}
+	return s
+}
+
+func modelPreludeExact() string {
+	var sb strings.Builder
+	sb.WriteString(`(declare-datatypes ((Slice 0)) (((mk-slice (s.base Int) (s.off Int) (s.len Int) (s.cap Int)))))
+(declare-datatypes ((Iface 0)) (((mk-iface (i.tag Int) (i.val Int)))))
+(declare-sort Str 0)
+(declare-fun gs.len (Str) Int)
+(declare-fun gs.at (Str Int) Int)
+(declare-fun gs.lt (Str Str) Bool)
+(declare-fun gs.sub (Str Int Int) Str)
+(declare-fun gs.cat (Str Str) Str)
+(declare-fun gs.ofbytes (Int Int Int (Array Int Int)) Str)
+(declare-const gs.empty Str)
+(assert (= (gs.len gs.empty) 0))
+(define-fun go.div ((a Int) (b Int)) Int (ite (>= a 0) (ite (> b 0) (div a b) (- (div a (- b)))) (ite (> b 0) (- (div (- a) b)) (div (- a) (- b)))))
+(define-fun go.mod ((a Int) (b Int)) Int (- a (* b (go.div a b))))
+(define-fun idx ((o Int) (i Int)) Int (+ o i))
+(define-fun nl.div ((a Int) (b Int)) Int (go.div a b))
+(define-fun nl.mod ((a Int) (b Int)) Int (go.mod a b))
+(define-fun nl.mul ((a Int) (b Int)) Int (* a b))
+(declare-fun bit.and (Int Int) Int)
+(declare-fun bit.or (Int Int) Int)
+(declare-fun bit.xor (Int Int) Int)
+(declare-fun bit.andnot (Int Int) Int)
+`)
+	sb.WriteString("(define-fun pow2 ((k Int)) Int ")
+	for k := 0; k < 64; k++ {
+		fmt.Fprintf(&sb, "(ite (<= k %d) %s ", k, pow2lit(k))
+	}
+	sb.WriteString(pow2lit(64) + strings.Repeat(")", 64) + ")\n")
+	sb.WriteString("(define-fun bit8 ((a Int) (k Int)) Bool (= (mod (div a (pow2 k)) 2) 1))\n")
+	sb.WriteString("(define-fun val8 ((a Int)) Int (mod a 256))\n")
+	for _, op := range []string{"and", "or", "xor"} {
+		fmt.Fprintf(&sb, "(define-fun b%s8 ((a Int) (b Int)) Int (+", op)
+		for k := 0; k < 8; k++ {
+			fmt.Fprintf(&sb, " (ite (%s (= (mod (div a %d) 2) 1) (= (mod (div b %d) 2) 1)) %d 0)", op, 1<<k, 1<<k, 1<<k)
+		}
+		sb.WriteString("))\n")
+	}
+	sb.WriteString("(define-fun bnot8 ((a Int)) Int (- 255 (mod a 256)))\n")
+	sb.WriteString("(define-fun shl8 ((a Int) (k Int)) Int (mod (* a (pow2 k)) 256))\n")
+	sb.WriteString("(define-fun shr8 ((a Int) (k Int)) Int (div (mod a 256) (pow2 k)))\n")
+	return sb.String()
+}
+
+func hasQuantifier(cmd string) bool {
+	return strings.Contains(cmd, "(forall ") || strings.Contains(cmd, "(exists ")
+}
+
+// modelQuery: the failed query with every quantified assertion dropped and helper functions defined exactly.
+// A model of it is only a *candidate* failing input; the replay on the real code decides.
+func (c *Ctx) modelQuery(o *Obligation, extra []string, getValues []string, exactNL bool) string {
+	var sb strings.Builder
+	sb.WriteString("(set-option :produce-models true)\n(set-logic ALL)\n")
+	sb.WriteString(modelPreludeNL(exactNL))
+	for _, l := range c.sortCmds {
+		sb.WriteString(l + "\n")
+	}
+	for _, l := range c.declCmds {
+		sb.WriteString(l + "\n")
+	}
+	for _, l := range c.smtLines() {
+		if !hasQuantifier(l) {
+			sb.WriteString(l + "\n")
+		}
+	}
+	for _, l := range c.strLitFacts() {
+		sb.WriteString(l + "\n")
+	}
+	// instantiation terms: parameters and skolem constants
+	terms := map[string][]string{}
+	for _, d := range c.declCmds {
+		f := strings.Fields(strings.TrimSuffix(strings.TrimPrefix(d, "(declare-const "), ")"))
+		if len(f) == 2 && strings.HasPrefix(d, "(declare-const ") && (strings.HasPrefix(f[0], "sk_") || strings.HasPrefix(f[0], "p_")) {
+			terms[f[1]] = append(terms[f[1]], f[0])
+		}
+	}
+	for k, ts := range terms {
+		// the most recently introduced constants (goal skolems) matter most
+		if len(ts) > 8 {
+			terms[k] = ts[len(ts)-8:]
+		}
+	}
+	budget := 400
+	for _, l := range o.Path.slice() {
+		if hasQuantifier(l) {
+			if strings.HasPrefix(l, "(assert ") {
+				for _, n := range parseSx(l) {
+					sb.WriteString(instQuant(n, terms, &budget).String() + "\n")
+				}
+			}
+			continue
+		}
+		sb.WriteString(l + "\n")
+	}
+	if !hasQuantifier(o.Goal) {
+		sb.WriteString("(assert (not " + o.Goal + "))\n")
+	} else {
+		for _, n := range parseSx("(assert (not " + o.Goal + "))") {
+			sb.WriteString(instQuant(n, terms, &budget).String() + "\n")
+		}
+	}
+	for _, l := range extra {
+		sb.WriteString(l + "\n")
+	}
+	sb.WriteString("(check-sat)\n")
+	if len(getValues) > 0 {
+		sb.WriteString("(get-value (" + strings.Join(getValues, " ") + "))\n")
+	}
+	return sb.String()
+}
+
+// parseGetValue parses ((term value) ...) into a map from normalised term text to value text.
+func parseGetValue(out string) map[string]string {
+	res := map[string]string{}
+	i := strings.Index(out, "((")
+	if i < 0 {
+		return res
+	}
+	s := out[i+1:]
+	// s is a sequence of (term value) pairs followed by ")"
+	pos := 0
+	for pos < len(s) {
+		for pos < len(s) && (s[pos] == ' ' || s[pos] == '\n' || s[pos] == '\t' || s[pos] == '\r') {
+			pos++
+		}
+		if pos >= len(s) || s[pos] != '(' {
+			break
+		}
+		end := matchParen(s, pos)
+		if end < 0 {
+			break
+		}
+		pair := s[pos+1 : end]
+		// split pair into two s-expressions
+		a, rest := readSexp(pair)
+		v, _ := readSexp(rest)
+		res[normTerm(a)] = normTerm(v)
+		pos = end + 1
+	}
+	return res
+}
+
+func readSexp(s string) (string, string) {
+	s = strings.TrimLeft(s, " \n\t\r")
+	if s == "" {
+		return "", ""
+	}
+	if s[0] == '(' {
+		e := matchParen(s, 0)
+		if e < 0 {
+			return s, ""
+		}
+		return s[:e+1], s[e+1:]
+	}
+	if s[0] == '|' {
+		e := strings.Index(s[1:], "|")
+		if e >= 0 {
+			return s[:e+2], s[e+2:]
+		}
+	}
+	e := strings.IndexAny(s, " \n\t\r")
+	if e < 0 {
+		return s, ""
+	}
+	return s[:e], s[e:]
+}
+
+// ---------------------------------------------------------------------------
+// Replay
+// ---------------------------------------------------------------------------
+
+func tryReplay(c *Ctx, o *Obligation, dir string, qi int, secs int) map[string]interface{} {
+	res := map[string]interface{}{"reproduced": false}
+	fn := c.Fn
+	if fn.Parent() != nil {
+		res["verdict"] = "closure: cannot be called directly"
+		return res
+	}
+	if fn.TypeParams().Len() > 0 || len(fn.TypeArgs()) > 0 {
+		res["verdict"] = "generic instantiation: replay not supported"
+		return res
+	}
+	// input shapes over the entry heap
+	b := &shapeBuilder{c: c, heap: func(name, sort string) string { return compIn(c, Heap{}, name, sort) }}
+	var shapes []*Shape
+	for i, p := range fn.Params {
+		t, ok := c.paramTerms[i].(string)
+		if !ok {
+			res["verdict"] = "parameter " + p.Name() + " has no first-order value"
+			return res
+		}
+		shapes = append(shapes, b.build(t, p.Type(), 0))
+	}
+	// prefer small inputs
+	var small []string
+	var collectSmall func(sh *Shape)
+	collectSmall = func(sh *Shape) {
+		switch sh.Kind {
+		case "slice":
+			small = append(small, fmt.Sprintf("(assert (<= %s %d))", sh.LenTerm, replayMaxElems))
+			for _, f := range c.wf(sh.Term, sh.Ty, 0) {
+				small = append(small, "(assert "+f+")")
+			}
+			for _, e := range sh.Elems {
+				collectSmall(e)
+			}
+		case "time":
+			small = append(small, fmt.Sprintf("(assert (and (< (- 4000000000000000000) %s) (< %s 4000000000000000000)))", sh.Term, sh.Term))
+		case "string":
+			small = append(small, fmt.Sprintf("(assert (<= %s %d))", sh.LenTerm, 2*replayMaxElems))
+		case "ptr":
+			if sh.Pointee != nil {
+				collectSmall(sh.Pointee)
+			}
+		case "struct":
+			for _, f := range sh.Fields {
+				collectSmall(f)
+			}
+		}
+	}
+	for _, sh := range shapes {
+		collectSmall(sh)
+	}
+	// abstract ("ghost") part of the input: skolem witnesses and ground applications of the uninterpreted spec
+	// functions declared in contract files; their model values are part of the counterexample
+	ghostTerms := c.ghostAtoms(o)
+	// candidate models, best first: the full query (quantified facts kept; an `unknown` answer still carries the
+	// solver's candidate), then the quantifier-free relaxation
+	type cand struct {
+		vals map[string]string
+		src  string
+	}
+	var cands []cand
+	var status []string
+	seen := map[string]bool{}
+	addCand := func(v map[string]string, src string) {
+		if len(v) == 0 {
+			return
+		}
+		keys := make([]string, 0, len(v))
+		for k := range v {
+			keys = append(keys, k+"="+v[k])
+		}
+		sort.Strings(keys)
+		sig := strings.Join(keys, ";")
+		if seen[sig] {
+			return
+		}
+		seen[sig] = true
+		cands = append(cands, cand{v, src})
+	}
+	fullQ := func(extra []string) string {
+		q := c.queryText(o, false)
+		q = strings.TrimSuffix(strings.TrimSpace(q), "(check-sat)")
+		return q + strings.Join(extra, "\n") + "\n(check-sat)\n(get-value (" + strings.Join(append(append([]string{}, b.terms...), ghostTerms...), " ") + "))\n"
+	}
+	var wfOnly []string
+	for _, a := range small {
+		if !strings.Contains(a, "(assert (<= ") {
+			wfOnly = append(wfOnly, a)
+		}
+	}
+	for attempt, extra := range [][]string{small, wfOnly} {
+		qf := filepath.Join(dir, fmt.Sprintf("model_%d_full%d.smt2", qi, attempt))
+		os.WriteFile(qf, []byte(fullQ(extra)), 0o644)
+		for _, sc := range []solverCfg{
+			{"z3-new", func(f string, t int) []string { return []string{"z3-new", fmt.Sprintf("-t:%d", t*1000), "-smt2", f} }},
+			{"cvc5", func(f string, t int) []string { return []string{"cvc5", "--dag-thresh=0", fmt.Sprintf("--tlimit-per=%d", t*1000), f} }},
+		} {
+			r, out, _ := runSolver(sc, qf, 5)
+			status = append(status, fmt.Sprintf("full%d/%s:%s", attempt, sc.name, r))
+			if r == "sat" || r == "unknown" {
+				addCand(parseGetValue(out), fmt.Sprintf("%s on the full query (%s)", sc.name, r))
+			}
+		}
+		for _, exact := range []bool{true, false} {
+			qf2 := filepath.Join(dir, fmt.Sprintf("model_%d_qf%d_%v.smt2", qi, attempt, exact))
+			os.WriteFile(qf2, []byte(c.modelQuery(o, extra, append(append([]string{}, b.terms...), ghostTerms...), exact)), 0o644)
+			found := false
+			for _, sc := range []solverCfg{solvers[0],
+				{"cvc5", func(f string, t int) []string { return []string{"cvc5", "--dag-thresh=0", fmt.Sprintf("--tlimit=%d", t*1000), f} }}} {
+				r, out, _ := runSolver(sc, qf2, 4)
+				status = append(status, fmt.Sprintf("qf%d(exactNL=%v)/%s:%s", attempt, exact, sc.name, r))
+				if r == "sat" {
+					addCand(parseGetValue(out), sc.name+" on the instantiated quantifier-free relaxation")
+					found = true
+					break
+				}
+			}
+			if found {
+				break
+			}
+		}
+		if len(cands) >= 3 {
+			break
+		}
+	}
+	res["model_search"] = status
+	if len(cands) == 0 {
+		res["verdict"] = "no candidate model (" + strings.Join(status, " ") + ")"
+		return res
+	}
+	var last map[string]interface{}
+	for ci, cd := range cands {
+		if ci >= 3 {
+			break
+		}
+		r := replayCandidate(c, o, dir, qi*10+ci, shapes, cd.vals, ghostTerms)
+		r["model_source"] = cd.src
+		last = r
+		if rep, _ := r["reproduced"].(bool); rep {
+			break
+		}
+	}
+	for k, v := range last {
+		res[k] = v
+	}
+	res["candidates_tried"] = minInt(len(cands), 3)
+	return res
+}
+
+func replayCandidate(c *Ctx, o *Obligation, dir string, qi int, shapes []*Shape, vals map[string]string, ghostTerms []string) map[string]interface{} {
+	res := map[string]interface{}{"reproduced": false}
+	fn := c.Fn
+	var ghostFacts []string
+	for _, g := range ghostTerms {
+		if v, ok := vals[normTerm(g)]; ok && !strings.Contains(v, "(as ") && !strings.Contains(v, "(_ ") {
+			ghostFacts = append(ghostFacts, fmt.Sprintf("(assert (= %s %s))", g, v))
+		}
+	}
+	res["abstract_state"] = ghostFacts
+	for _, sh := range shapes {
+		sh.fill(vals)
+	}
+	// the candidate must satisfy the preconditions (an `unknown` answer's candidate often does not)
+	if ok, why := c.inputsSatisfyRequires(shapes, ghostFacts, dir, qi); !ok {
+		res["verdict"] = "candidate input rejected: " + why
+		return res
+	}
+	// Go test
+	pkg := c.pkgOf(fn)
+	qual := func(p *types.Package) string {
+		if p == pkg {
+			return ""
+		}
+		return p.Name()
+	}
+	var notes []string
+	var args []string
+	var argTypes []string
+	imports := map[string]bool{}
+	for _, sh := range shapes {
+		jb, _ := json.Marshal(sh.toJSON(&notes))
+		args = append(args, string(jb))
+		argTypes = append(argTypes, types.TypeString(sh.Ty, qual))
+	}
+	call, ok := callExpr(fn, args, qual)
+	if !ok {
+		res["verdict"] = "cannot build a call expression for " + c.Key
+		return res
+	}
+	collectImports(fn, pkg, imports)
+	src := genReplayTest(pkg, fn, call, args, argTypes, imports, shapes)
+	res["inputs"] = args
+	res["notes"] = notes
+	testFile := filepath.Join(dir, fmt.Sprintf("replay_%d_test.go", qi))
+	os.WriteFile(testFile, []byte(src), 0o644)
+	pkgDir := filepath.Join(repoDir(), strings.TrimPrefix(pkg.Path(), modPath))
+	ov := map[string]interface{}{"Replace": map[string]string{filepath.Join(pkgDir, "zz_vcgo_replay_test.go"): testFile}}
+	ovb, _ := json.Marshal(ov)
+	ovFile := filepath.Join(dir, fmt.Sprintf("overlay_%d.json", qi))
+	os.WriteFile(ovFile, ovb, 0o644)
+	cmd := exec.Command("go", "test", "-overlay", ovFile, "-vet=off", "-count=1", "-timeout", "60s", "-v", "-run", "^TestVcgoReplay$", ".")
+	cmd.Dir = pkgDir
+	outb, _ := cmd.CombinedOutput()
+	out := string(outb)
+	res["go_test_cmd"] = fmt.Sprintf("cd %s && go test -overlay %s -vet=off -count=1 -timeout 60s -run '^TestVcgoReplay$' .", pkgDir, ovFile)
+	if len(out) > 6000 {
+		out = out[:6000]
+	}
+	res["go_test_output"] = out
+	var obs map[string]interface{}
+	for _, l := range strings.Split(out, "\n") {
+		if j := strings.Index(l, "VCGO-RESULT:"); j >= 0 {
+			json.Unmarshal([]byte(l[j+len("VCGO-RESULT:"):]), &obs)
+		}
+	}
+	if obs == nil {
+		res["verdict"] = "replay test did not run (build error or timeout)"
+		if strings.Contains(out, "panic: test timed out") {
+			res["verdict"] = "real code did not terminate within 60s on the model input"
+			res["reproduced"] = strings.HasPrefix(o.Kind, "dec#")
+		}
+		return res
+	}
+	res["observed"] = obs
+	panicked, _ := obs["panic"].(string)
+	kind := o.Kind
+	switch {
+	case strings.HasPrefix(kind, "safe-") || strings.HasPrefix(kind, "pre#") || strings.HasPrefix(kind, "ovf"):
+		if panicked != "" {
+			res["reproduced"] = true
+			res["verdict"] = "real code panics on the model input: " + panicked
+		} else {
+			res["verdict"] = "real code does not panic on the candidate input"
+		}
+	case strings.HasPrefix(kind, "post#"):
+		if panicked != "" {
+			res["reproduced"] = true
+			res["verdict"] = "real code panics on the model input: " + panicked
+			return res
+		}
+		v, detail := c.evalPostOnObserved(o, shapes, obs, dir, qi, ghostFacts)
+		res["post_check"] = detail
+		if v == "violated" {
+			res["reproduced"] = true
+			res["verdict"] = "postcondition is false for the values the real code returned on the model input"
+		} else {
+			res["verdict"] = "postcondition " + v + " on the candidate input"
+		}
+	default:
+		if panicked != "" {
+			res["reproduced"] = true
+			res["verdict"] = "real code panics on the model input: " + panicked
+		} else {
+			res["verdict"] = "intermediate-state obligation: not observable from outside, real code ran without panic"
+		}
+	}
+	return res
+}
+
+func minInt(a, b int) int {
+	if a < b {
+		return a
+	}
+	return b
+}
+
+func callExpr(fn *ssa.Function, args []string, qual types.Qualifier) (string, bool) {
+	if recv := fn.Signature.Recv(); recv != nil {
+		if len(args) == 0 {
+			return "", false
+		}
+		return fmt.Sprintf("(a0).%s(%s)", fn.Name(), strings.Join(argNames(len(args)-1, 1), ", ")), true
+	}
+	return fmt.Sprintf("%s(%s)", fn.Name(), strings.Join(argNames(len(args), 0), ", ")), true
+}
+
+func argNames(n, from int) []string {
+	var out []string
+	for i := 0; i < n; i++ {
+		out = append(out, fmt.Sprintf("a%d", from+i))
+	}
+	return out
+}
+
+func collectImports(fn *ssa.Function, pkg *types.Package, imports map[string]bool) {
+	var walk func(t types.Type, d int)
+	walk = func(t types.Type, d int) {
+		if d > 5 {
+			return
+		}
+		switch t := types.Unalias(t).(type) {
+		case *types.Named:
+			if t.Obj().Pkg() != nil && t.Obj().Pkg() != pkg {
+				imports[t.Obj().Pkg().Path()] = true
+			}
+			if t.Obj().Pkg() == pkg {
+				walk(t.Underlying(), d+1)
+			}
+		case *types.Pointer:
+			walk(t.Elem(), d+1)
+		case *types.Slice:
+			walk(t.Elem(), d+1)
+		case *types.Array:
+			walk(t.Elem(), d+1)
+		case *types.Struct:
+			for i := 0; i < t.NumFields(); i++ {
+				walk(t.Field(i).Type(), d+1)
+			}
+		}
+	}
+	for _, p := range fn.Params {
+		walk(p.Type(), 0)
+	}
+}
+
+func genReplayTest(pkg *types.Package, fn *ssa.Function, call string, args []string, argTypes []string, imports map[string]bool, shapes []*Shape) string {
+	var sb strings.Builder
+	fmt.Fprintf(&sb, "package %s\n\nimport (\n\t\"encoding/json\"\n\t\"fmt\"\n\t\"math/big\"\n\t\"reflect\"\n\t\"testing\"\n\t\"time\"\n\t\"unsafe\"\n", pkg.Name())
+	var imps []string
+	for p := range imports {
+		imps = append(imps, p)
+	}
+	sort.Strings(imps)
+	allArgs := strings.Join(argTypes, " ")
+	for _, p := range imps {
+		if p == "encoding/json" || p == "fmt" || p == "reflect" || p == "testing" || p == "time" || p == "unsafe" || p == "math/big" {
+			continue
+		}
+		base := p[strings.LastIndex(p, "/")+1:]
+		if pk := fn.Prog.ImportedPackage(p); pk != nil {
+			base = pk.Pkg.Name()
+		}
+		if !strings.Contains(allArgs, base+".") {
+			continue
+		}
+		fmt.Fprintf(&sb, "\t%q\n", p)
+	}
+	sb.WriteString(")\n\n")
+	for _, p := range imps {
+		// keep imports used
+		_ = p
+	}
+	sb.WriteString(replayDumper)
+	sb.WriteString("\nfunc TestVcgoReplay(t *testing.T) {\n")
+	sb.WriteString("\tvar _ = time.Now\n\tvar _ unsafe.Pointer\n\tvar _ = big.NewInt\n")
+	for i, a := range args {
+		fmt.Fprintf(&sb, "\tvar a%d %s\n\tvcgoBuild(reflect.ValueOf(&a%d).Elem(), %q)\n", i, argTypes[i], i, a)
+	}
+	sb.WriteString("\tout := map[string]interface{}{}\n")
+	sb.WriteString("\tfunc() {\n\t\tdefer func() {\n\t\t\tif r := recover(); r != nil {\n\t\t\t\tout[\"panic\"] = fmt.Sprint(r)\n\t\t\t}\n\t\t}()\n")
+	nres := fn.Signature.Results().Len()
+	if nres == 0 {
+		fmt.Fprintf(&sb, "\t\t%s\n", call)
+	} else {
+		var rs []string
+		for i := 0; i < nres; i++ {
+			rs = append(rs, fmt.Sprintf("r%d", i))
+		}
+		fmt.Fprintf(&sb, "\t\t%s := %s\n", strings.Join(rs, ", "), call)
+		for i := 0; i < nres; i++ {
+			fmt.Fprintf(&sb, "\t\tout[\"result%d\"] = vcgoDump(reflect.ValueOf(&r%d).Elem(), 0)\n", i, i)
+		}
+	}
+	sb.WriteString("\t}()\n")
+	for i := range args {
+		fmt.Fprintf(&sb, "\tout[\"arg%d\"] = vcgoDump(reflect.ValueOf(&a%d).Elem(), 0)\n", i, i)
+	}
+	sb.WriteString("\tb, _ := json.Marshal(out)\n\tfmt.Println(\"VCGO-RESULT:\" + string(b))\n}\n")
+	// silence unused imports
+	for _, p := range imps {
+		base := p[strings.LastIndex(p, "/")+1:]
+		_ = base
+	}
+	return sb.String()
+}
+
+const replayDumper = `
+// vcgoBuild constructs a value (unexported and foreign fields included) from its JSON description.
+func vcgoBuild(v reflect.Value, desc string) {
+	var d interface{}
+	json.Unmarshal([]byte(desc), &d)
+	vcgoSet(v, d)
+}
+
+func vcgoSettable(v reflect.Value) reflect.Value {
+	if v.CanSet() {
+		return v
+	}
+	return reflect.NewAt(v.Type(), unsafe.Pointer(v.UnsafeAddr())).Elem()
+}
+
+func vcgoSet(v reflect.Value, d interface{}) {
+	m, ok := d.(map[string]interface{})
+	if !ok {
+		return
+	}
+	v = vcgoSettable(v)
+	if ns, ok := m["time_ns"].(string); ok && v.Type().PkgPath() == "time" && v.Type().Name() == "Time" {
+		b, _ := new(big.Int).SetString(ns, 10)
+		sec, nsec := new(big.Int), new(big.Int)
+		sec.DivMod(b, big.NewInt(1000000000), nsec)
+		v.Set(reflect.ValueOf(time.Unix(sec.Int64(), nsec.Int64()).UTC()))
+		return
+	}
+	switch v.Kind() {
+	case reflect.Bool:
+		b, _ := m["bool"].(bool)
+		v.SetBool(b)
+	case reflect.Int, reflect.Int8, reflect.Int16, reflect.Int32, reflect.Int64:
+		s, _ := m["int"].(string)
+		b, _ := new(big.Int).SetString(s, 10)
+		if b != nil {
+			v.SetInt(b.Int64())
+		}
+	case reflect.Uint, reflect.Uint8, reflect.Uint16, reflect.Uint32, reflect.Uint64, reflect.Uintptr:
+		s, _ := m["int"].(string)
+		b, _ := new(big.Int).SetString(s, 10)
+		if b != nil {
+			v.SetUint(b.Uint64())
+		}
+	case reflect.Float32, reflect.Float64:
+		f, _ := m["float"].(float64)
+		v.SetFloat(f)
+	case reflect.String:
+		s, _ := m["str"].(string)
+		var bs []byte
+		json.Unmarshal([]byte("\"" + s + "\""), &bs)
+		v.SetString(string(bs))
+	case reflect.Slice:
+		if isnil, _ := m["nil"].(bool); isnil {
+			return
+		}
+		es, _ := m["slice"].([]interface{})
+		sl := reflect.MakeSlice(v.Type(), len(es), len(es))
+		for i, e := range es {
+			vcgoSet(sl.Index(i), e)
+		}
+		v.Set(sl)
+	case reflect.Ptr:
+		if isnil, _ := m["nil"].(bool); isnil {
+			return
+		}
+		p := reflect.New(v.Type().Elem())
+		vcgoSet(p.Elem(), m["ptr"])
+		v.Set(p)
+	case reflect.Struct:
+		fm, _ := m["struct"].(map[string]interface{})
+		for i := 0; i < v.NumField(); i++ {
+			if fd, ok := fm[v.Type().Field(i).Name]; ok {
+				vcgoSet(v.Field(i), fd)
+			}
+		}
+	}
+}
+
+// vcgoDump renders a value (including unexported fields) as JSON-able data.
+func vcgoDump(v reflect.Value, depth int) interface{} {
+	if depth > 6 || !v.IsValid() {
+		return nil
+	}
+	switch v.Kind() {
+	case reflect.Bool:
+		return v.Bool()
+	case reflect.Int, reflect.Int8, reflect.Int16, reflect.Int32, reflect.Int64:
+		return fmt.Sprint(v.Int())
+	case reflect.Uint, reflect.Uint8, reflect.Uint16, reflect.Uint32, reflect.Uint64, reflect.Uintptr:
+		return fmt.Sprint(v.Uint())
+	case reflect.Float32, reflect.Float64:
+		return fmt.Sprintf("%g", v.Float())
+	case reflect.String:
+		return map[string]interface{}{"str": []byte(v.String())}
+	case reflect.Slice:
+		if v.IsNil() {
+			return map[string]interface{}{"nil": true, "len": 0}
+		}
+		n := v.Len()
+		m := n
+		if m > 64 {
+			m = 64
+		}
+		es := make([]interface{}, 0, m)
+		for i := 0; i < m; i++ {
+			es = append(es, vcgoDump(v.Index(i), depth+1))
+		}
+		return map[string]interface{}{"len": n, "elems": es}
+	case reflect.Array:
+		es := []interface{}{}
+		for i := 0; i < v.Len() && i < 64; i++ {
+			es = append(es, vcgoDump(v.Index(i), depth+1))
+		}
+		return map[string]interface{}{"len": v.Len(), "elems": es}
+	case reflect.Ptr:
+		if v.IsNil() {
+			return map[string]interface{}{"nil": true}
+		}
+		return map[string]interface{}{"ptr": vcgoDump(v.Elem(), depth+1)}
+	case reflect.Struct:
+		if v.Type().PkgPath() == "time" && v.Type().Name() == "Time" {
+			if v.CanInterface() {
+				return map[string]interface{}{"time_ns": fmt.Sprint(v.Interface().(interface{ UnixNano() int64 }).UnixNano())}
+			}
+			return map[string]interface{}{"time_ns": "?"}
+		}
+		m := map[string]interface{}{}
+		for i := 0; i < v.NumField(); i++ {
+			m[v.Type().Field(i).Name] = vcgoDump(v.Field(i), depth+1)
+		}
+		return map[string]interface{}{"struct": m}
+	case reflect.Interface:
+		if v.IsNil() {
+			return map[string]interface{}{"nil": true}
+		}
+		return map[string]interface{}{"iface": v.Elem().Type().String()}
+	case reflect.Map:
+		return map[string]interface{}{"maplen": v.Len()}
+	}
+	return nil
+}
+`
+
+// ---------------------------------------------------------------------------
+// Checking a postcondition on the values the real code produced
+// ---------------------------------------------------------------------------
+
+// observedFacts turns a dumped value into ground facts about a term of the given type in the given heap.
+func (c *Ctx) observedFacts(term string, t types.Type, obs interface{}, heap func(name, sort string) string, out *[]string, depth int) {
+	if obs == nil || depth > 5 {
+		return
+	}
+	if n, ok := types.Unalias(t).(*types.Named); ok && n.Obj().Pkg() != nil && n.Obj().Pkg().Path() == "time" && n.Obj().Name() == "Time" {
+		if m, ok := obs.(map[string]interface{}); ok {
+			if ns, ok := m["time_ns"].(string); ok && ns != "?" {
+				if _, ok := c.structNames["time.Time"]; ok {
+					*out = append(*out, fmt.Sprintf("(assert (= (time.ns %s) %s))", term, smtIntStr(ns)))
+				}
+			}
+		}
+		return
+	}
+	switch u := c.under(t).(type) {
+	case *types.Basic:
+		switch {
+		case u.Info()&types.IsBoolean != 0:
+			if b, ok := obs.(bool); ok {
+				*out = append(*out, fmt.Sprintf("(assert (= %s %v))", term, b))
+			}
+		case u.Info()&types.IsInteger != 0:
+			if s, ok := obs.(string); ok {
+				*out = append(*out, fmt.Sprintf("(assert (= %s %s))", term, smtIntStr(s)))
+			}
+		case u.Info()&types.IsFloat != 0:
+			// floats: not encoded
+		case u.Info()&types.IsString != 0:
+			if m, ok := obs.(map[string]interface{}); ok {
+				bs := decodeBytes(m["str"])
+				*out = append(*out, fmt.Sprintf("(assert (= (gs.len %s) %d))", term, len(bs)))
+				for i, ch := range bs {
+					if i >= 64 {
+						break
+					}
+					*out = append(*out, fmt.Sprintf("(assert (= (gs.at %s %d) %d))", term, i, ch))
+				}
+			}
+		}
+	case *types.Slice:
+		m, ok := obs.(map[string]interface{})
+		if !ok {
+			return
+		}
+		if isnil, _ := m["nil"].(bool); isnil {
+			*out = append(*out, fmt.Sprintf("(assert (= %s (mk-slice 0 0 0 0)))", term))
+			return
+		}
+		n := int(toFloat(m["len"]))
+		*out = append(*out, fmt.Sprintf("(assert (and (= (s.len %s) %d) (not (= (s.base %s) 0))))", term, n, term))
+		cn, cs := c.elemComp(u.Elem())
+		es, _ := m["elems"].([]interface{})
+		for i, e := range es {
+			et := fmt.Sprintf("(select (select %s (s.base %s)) (idx (s.off %s) %d))", heap(cn, cs), term, term, i)
+			c.observedFacts(et, u.Elem(), e, heap, out, depth+1)
+		}
+	case *types.Pointer:
+		m, ok := obs.(map[string]interface{})
+		if !ok {
+			return
+		}
+		if isnil, _ := m["nil"].(bool); isnil {
+			*out = append(*out, fmt.Sprintf("(assert (= %s 0))", term))
+			return
+		}
+		*out = append(*out, fmt.Sprintf("(assert (not (= %s 0)))", term))
+		if st := c.structOf(u.Elem()); st != nil {
+			sm, _ := m["ptr"].(map[string]interface{})
+			fm, _ := sm["struct"].(map[string]interface{})
+			for i := 0; i < st.NumFields(); i++ {
+				cn, cs, ft := c.fieldComp(u.Elem(), i)
+				c.observedFacts(fmt.Sprintf("(select %s %s)", heap(cn, cs), term), ft, fm[st.Field(i).Name()], heap, out, depth+1)
+			}
+		}
+	case *types.Struct:
+		m, ok := obs.(map[string]interface{})
+		if !ok {
+			return
+		}
+		fm, _ := m["struct"].(map[string]interface{})
+		name := c.structSort(t, u)
+		for i := 0; i < u.NumFields(); i++ {
+			c.observedFacts(fmt.Sprintf("(%s %s)", c.fieldSel(name, u.Field(i).Name(), i), term), u.Field(i).Type(), fm[u.Field(i).Name()], heap, out, depth+1)
+		}
+	case *types.Interface:
+		m, ok := obs.(map[string]interface{})
+		if !ok {
+			return
+		}
+		if isnil, _ := m["nil"].(bool); isnil {
+			*out = append(*out, fmt.Sprintf("(assert (= (i.tag %s) 0))", term))
+		} else {
+			*out = append(*out, fmt.Sprintf("(assert (not (= (i.tag %s) 0)))", term))
+		}
+	}
+}
+
+func smtIntStr(s string) string {
+	b, ok := new(big.Int).SetString(s, 10)
+	if !ok {
+		return "0"
+	}
+	return smtInt(b)
+}
+
+func toFloat(v interface{}) float64 {
+	switch x := v.(type) {
+	case float64:
+		return x
+	case int:
+		return float64(x)
+	}
+	return 0
+}
+
+func decodeBytes(v interface{}) []byte {
+	// encoding/json renders []byte as base64
+	s, ok := v.(string)
+	if !ok {
+		return nil
+	}
+	var b []byte
+	json.Unmarshal([]byte(`"`+s+`"`), &b)
+	return b
+}
+
+// inputFacts pins the entry state to the values used in the replay.
+func (sh *Shape) inputFacts(out *[]string) {
+	switch sh.Kind {
+	case "int", "bool", "float":
+		if sh.Val != "" {
+			*out = append(*out, fmt.Sprintf("(assert (= %s %s))", sh.Term, sh.Val))
+		}
+	case "time":
+		if sh.Val != "" {
+			*out = append(*out, fmt.Sprintf("(assert (= %s %s))", sh.Term, sh.Val))
+		}
+	case "string":
+		*out = append(*out, fmt.Sprintf("(assert (= %s %d))", sh.LenTerm, len(sh.Val)))
+		for k := 0; k < len(sh.Val) && k < len(sh.Chars); k++ {
+			*out = append(*out, fmt.Sprintf("(assert (= %s %d))", sh.Chars[k], sh.Val[k]))
+		}
+	case "slice":
+		if sh.IsNil {
+			*out = append(*out, fmt.Sprintf("(assert %s)", sh.NilTerm))
+			*out = append(*out, fmt.Sprintf("(assert (= %s 0))", sh.LenTerm))
+			return
+		}
+		n := sh.Len
+		if n > len(sh.Elems) {
+			n = len(sh.Elems)
+		}
+		*out = append(*out, fmt.Sprintf("(assert (not %s))", sh.NilTerm))
+		*out = append(*out, fmt.Sprintf("(assert (= %s %d))", sh.LenTerm, n))
+		for k := 0; k < n; k++ {
+			sh.Elems[k].inputFacts(out)
+		}
+	case "ptr":
+		if sh.IsNil || sh.Pointee == nil {
+			*out = append(*out, fmt.Sprintf("(assert %s)", sh.NilTerm))
+			return
+		}
+		*out = append(*out, fmt.Sprintf("(assert (not %s))", sh.NilTerm))
+		sh.Pointee.inputFacts(out)
+	case "struct":
+		for _, f := range sh.Fields {
+			f.inputFacts(out)
+		}
+	}
+}
+
+// evalPostOnObserved evaluates the failed ensures clause on the concrete run: inputs as replayed, outputs and
+// final state as dumped by the test. Returns "violated", "holds" or "undetermined".
+func (c *Ctx) evalPostOnObserved(o *Obligation, shapes []*Shape, obs map[string]interface{}, dir string, qi int, ghostFacts []string) (string, map[string]interface{}) {
+	detail := map[string]interface{}{}
+	// which ensures clause?
+	var k int
+	if _, err := fmt.Sscanf(strings.TrimPrefix(o.Kind, "post#"), "%d", &k); err != nil || k < 1 || k > len(c.Spec.Ensures) {
+		return "undetermined", detail
+	}
+	cl := c.Spec.Ensures[k-1]
+	c2 := c.cloneDecls()
+	s := &State{C: c2, Heap: Heap{}, Cells: map[*Cell]Term{}, CellLocs: map[*Cell]*Loc{}, Ghost: map[string]TV{}}
+	c2.declare("WM!0", "Int")
+	s.WM = "WM!0"
+	final := func(name, sort string) string {
+		n := "|" + name + "@final|"
+		c2.declare(n, sort)
+		c2.compSorts[name] = sort
+		s.Heap[name] = n
+		return n
+	}
+	initial := func(name, sort string) string { return compIn(c2, Heap{}, name, sort) }
+	fr := c2.newFrame(c.Fn, nil)
+	s.Frame = fr
+	var facts []string
+	for i, p := range c.Fn.Params {
+		t := c.paramTerms[i].(string)
+		c2.declare(t, c2.sortOf(p.Type()))
+		fr.Params = append(fr.Params, t)
+		fr.Vals[p] = t
+		shapes[i].inputFacts(&facts)
+		// final state of what the arguments point to
+		c2.observedFacts(t, p.Type(), obs[fmt.Sprintf("arg%d", i)], final, &facts, 0)
+	}
+	s.Old = &Snapshot{Heap: Heap{"\x00epoch": "0"}, Cells: map[*Cell]Term{}, Ghost: map[string]TV{}}
+	// make sure every component mentioned for the final heap exists in s.Heap before evaluation:
+	// components not observed keep their entry value
+	env := c2.funcEnv(s, fr, true)
+	sig := c.Fn.Signature
+	for i := 0; i < sig.Results().Len(); i++ {
+		rt := sig.Results().At(i).Type()
+		name := fmt.Sprintf("res!%d", i)
+		c2.declare(name, c2.sortOf(rt))
+		for _, f := range c2.wf(name, rt, 0) {
+			facts = append(facts, "(assert "+f+")")
+		}
+		tv := c2.mkTV(name, rt)
+		env.Vars[fmt.Sprintf("result%d", i)] = tv
+		if n := sig.Results().At(i).Name(); n != "" && n != "_" {
+			env.Vars[n] = tv
+		}
+		if sig.Results().Len() == 1 {
+			env.Vars["result"] = tv
+		}
+		c2.observedFacts(name, rt, obs[fmt.Sprintf("result%d", i)], final, &facts, 0)
+	}
+	_ = initial
+	var post string
+	func() {
+		defer func() {
+			if r := recover(); r != nil {
+				detail["error"] = fmt.Sprint(r)
+			}
+		}()
+		// unobserved components of the final heap equal the entry heap
+		env.Heap = s.Heap
+		t, err := env.evalBool(cl.E)
+		if err != nil {
+			detail["error"] = err.Error()
+			return
+		}
+		post = t
+	}()
+	if post == "" {
+		return "undetermined", detail
+	}
+	var sb strings.Builder
+	sb.WriteString("(set-option :produce-models true)\n(set-logic ALL)\n")
+	sb.WriteString(modelPrelude())
+	for _, l := range c2.sortCmds {
+		sb.WriteString(l + "\n")
+	}
+	for _, l := range c2.declCmds {
+		sb.WriteString(l + "\n")
+	}
+	for _, l := range c2.smtLines() {
+		if !hasQuantifier(l) {
+			sb.WriteString(l + "\n")
+		}
+	}
+	for _, l := range c2.strLitFacts() {
+		sb.WriteString(l + "\n")
+	}
+	for _, f := range facts {
+		sb.WriteString(f + "\n")
+	}
+	for _, g := range ghostFacts {
+		sb.WriteString(g + "\n")
+	}
+	qf := filepath.Join(dir, fmt.Sprintf("postcheck_%d.smt2", qi))
+	body := sb.String()
+	// violated  <=> facts /\ not post is satisfiable and facts /\ post is not
+	os.WriteFile(qf, []byte(body+"(push)\n(assert (not "+post+"))\n(check-sat)\n(pop)\n(push)\n(assert "+post+")\n(check-sat)\n(pop)\n"), 0o644)
+	cmd := exec.Command("z3-new", "-T:20", "-smt2", qf)
+	outb, _ := cmd.CombinedOutput()
+	lines := strings.Fields(string(outb))
+	detail["query_file"] = qf
+	detail["answers"] = lines
+	if len(lines) >= 2 {
+		switch {
+		case lines[0] == "sat" && lines[1] == "unsat":
+			return "violated", detail
+		case lines[0] == "unsat":
+			return "holds", detail
+		}
+	}
+	return "undetermined", detail
+}
+
+// ghostAtoms: skolem constants and ground applications of contract-declared uninterpreted functions that occur
+// in the failed query.
+func (c *Ctx) ghostAtoms(o *Obligation) []string {
+	user := map[string]bool{}
+	for _, l := range c.smtLines() {
+		if strings.HasPrefix(l, "(declare-fun ") {
+			f := strings.Fields(strings.TrimPrefix(l, "(declare-fun "))
+			if len(f) > 0 {
+				user[f[0]] = true
+			}
+		}
+	}
+	seen := map[string]bool{}
+	var out []string
+	add := func(t string) {
+		if !seen[t] {
+			seen[t] = true
+			out = append(out, t)
+		}
+	}
+	for _, d := range c.declCmds {
+		f := strings.Fields(strings.TrimSuffix(strings.TrimPrefix(d, "(declare-const "), ")"))
+		if len(f) == 2 && strings.HasPrefix(d, "(declare-const ") && strings.HasPrefix(f[0], "sk_") && (f[1] == "Int" || f[1] == "Bool") {
+			add(f[0])
+		}
+	}
+	var ground func(n *sx) bool
+	ground = func(n *sx) bool {
+		if !n.isL {
+			a := n.atom
+			return c.declSeen[a] || isLiteral(a) || a == "true" || a == "false"
+		}
+		for i, ch := range n.list {
+			if i == 0 && !ch.isL {
+				continue
+			}
+			if !ground(ch) {
+				return false
+			}
+		}
+		return true
+	}
+	var walk func(n *sx)
+	walk = func(n *sx) {
+		if !n.isL {
+			return
+		}
+		if user[n.head()] && ground(n) && len(out) < 60 {
+			add(n.String())
+		}
+		for _, ch := range n.list {
+			walk(ch)
+		}
+	}
+	cmds := append(o.Path.slice(), "(assert "+o.Goal+")")
+	for _, l := range cmds {
+		if !strings.HasPrefix(l, "(assert ") {
+			continue
+		}
+		hit := false
+		for u := range user {
+			if strings.Contains(l, "("+u+" ") {
+				hit = true
+			}
+		}
+		if !hit {
+			continue
+		}
+		for _, n := range parseSx(l) {
+			walk(n)
+		}
+	}
+	return out
+}
+
+// ghostDecls re-declares skolem constants used by ghost facts in a fresh context and returns the facts.
+func (c *Ctx) ghostDecls(facts []string, c2 *Ctx) []string {
+	var out []string
+	for _, d := range c.declCmds {
+		f := strings.Fields(strings.TrimSuffix(strings.TrimPrefix(d, "(declare-const "), ")"))
+		if len(f) == 2 && strings.HasPrefix(d, "(declare-const ") && strings.HasPrefix(f[0], "sk_") && !c2.declSeen[f[0]] {
+			for _, g := range facts {
+				if strings.Contains(g, f[0]) {
+					out = append(out, d)
+					break
+				}
+			}
+		}
+	}
+	return append(out, facts...)
+}
+
+// inputsSatisfyRequires: the preconditions, evaluated on the concrete candidate inputs (plus the abstract state),
+// must be satisfiable; a definite `unsat` rejects the candidate.
+func (c *Ctx) inputsSatisfyRequires(shapes []*Shape, ghostFacts []string, dir string, qi int) (bool, string) {
+	c2 := c.cloneDecls()
+	s := &State{C: c2, Heap: Heap{}, Cells: map[*Cell]Term{}, CellLocs: map[*Cell]*Loc{}, Ghost: map[string]TV{}}
+	c2.declare("WM!0", "Int")
+	s.WM = "WM!0"
+	fr := c2.newFrame(c.Fn, nil)
+	s.Frame = fr
+	var facts []string
+	for i, p := range c.Fn.Params {
+		t := c.paramTerms[i].(string)
+		c2.declare(t, c2.sortOf(p.Type()))
+		fr.Params = append(fr.Params, t)
+		fr.Vals[p] = t
+		shapes[i].inputFacts(&facts)
+	}
+	s.Old = s.snapshot()
+	var reqs []string
+	var evalErrStr string
+	func() {
+		defer func() {
+			if r := recover(); r != nil {
+				evalErrStr = fmt.Sprint(r)
+			}
+		}()
+		for _, r := range c.Spec.Requires {
+			env := c2.funcEnv(s, fr, true)
+			t, err := env.evalBool(r.E)
+			if err != nil {
+				evalErrStr = err.Error()
+				return
+			}
+			reqs = append(reqs, "(assert "+t+")")
+		}
+	}()
+	if evalErrStr != "" {
+		return true, ""
+	}
+	var sb strings.Builder
+	sb.WriteString("(set-logic ALL)\n")
+	sb.WriteString(modelPrelude())
+	for _, l := range c2.sortCmds {
+		sb.WriteString(l + "\n")
+	}
+	for _, l := range c2.declCmds {
+		sb.WriteString(l + "\n")
+	}
+	for _, l := range c2.smtLines() {
+		if !hasQuantifier(l) {
+			sb.WriteString(l + "\n")
+		}
+	}
+	for _, l := range c2.strLitFacts() {
+		sb.WriteString(l + "\n")
+	}
+	for _, f := range facts {
+		sb.WriteString(f + "\n")
+	}
+	for _, g := range ghostFacts {
+		sb.WriteString(g + "\n")
+	}
+	for _, r := range reqs {
+		sb.WriteString(r + "\n")
+	}
+	sb.WriteString("(check-sat)\n")
+	qf := filepath.Join(dir, fmt.Sprintf("reqcheck_%d.smt2", qi))
+	os.WriteFile(qf, []byte(sb.String()), 0o644)
+	r, out, _ := runSolver(solvers[0], qf, 5)
+	if r == "unsat" {
+		return false, "it violates the function's preconditions"
+	}
+	if r == "error" {
+		return false, "precondition check could not be run: " + firstLines(out, 2)
+	}
+	return true, ""
+}
+
+// cloneDecls: a fresh context that knows every sort and symbol of c (so that terms built for c stay well-formed).
+func (c *Ctx) cloneDecls() *Ctx {
+	c2 := newCtx(c.P, c.SS, c.Fn, c.Spec, c.Key)
+	c2.structNames = c.structNames
+	c2.sortCmds = append([]string{}, c.sortCmds...)
+	c2.tags = c.tags
+	c2.strlits = c.strlits
+	c2.declCmds = append([]string{}, c.declCmds...)
+	for k, v := range c.declSeen {
+		c2.declSeen[k] = v
+	}
+	for k, v := range c.sortSeen {
+		c2.sortSeen[k] = v
+	}
+	for k, v := range c.compSorts {
+		c2.compSorts[k] = v
+	}
+	c2.n = c.n + 1000
+	c2.usesBits = c.usesBits
+	return c2
 }
